@@ -97,6 +97,11 @@ def build() -> Tables:
           lambda: sorted(mod("src.orchestrator.core")._HARDCODED_EXCLUDE_EXTENSIONS))
     t.add("Orch", "defaultMaxWorkers", "Nat",
           lambda: mod("src.orchestrator.core").DEFAULT_MAX_WORKERS, 8)
+    # ---------------- Rust safety linters (C17)
+    t.add("Rust", "blockingFsFunctions", "List String", lambda: sorted(mod("src.linters.blocking_async.rust_analyzer")._BLOCKING_FS_FUNCTIONS))
+    t.add("Rust", "blockingNetTypes", "List String", lambda: sorted(mod("src.linters.blocking_async.rust_analyzer")._BLOCKING_NET_TYPES))
+    t.add("Rust", "asyncWrapperFunctions", "List String", lambda: sorted(mod("src.linters.blocking_async.rust_analyzer")._ASYNC_WRAPPER_FUNCTIONS))
+    t.add("Rust", "loopNodeTypes", "List String", lambda: sorted(mod("src.linters.clone_abuse.rust_analyzer")._LOOP_NODE_TYPES))
     # ---------------- ignore directives (C04)
     def alias_pairs():
         m = mod("src.core.rule_aliases")
